@@ -1377,6 +1377,11 @@ class RestAPI(object):
 
                     if not correlation_id.endswith(".waitForTaskToken"):
                         raise Exception(f"Malformed TaskToken {task_token}")
+
+                    # A TaskToken only ever names the reply_to queue of an
+                    # ASL Engine instance, never any other queue.
+                    if not reply_to.startswith("asl_workflow_reply_to"):
+                        raise Exception(f"Malformed TaskToken {task_token}")
                 except Exception as e:
                     self.logger.error(
                         f"RestAPI SendTaskSuccess: InvalidToken: {encoded_task_token} {e}"
@@ -1442,6 +1447,11 @@ class RestAPI(object):
                     reply_to = split[1]
 
                     if not correlation_id.endswith(".waitForTaskToken"):
+                        raise Exception(f"Malformed TaskToken {task_token}")
+
+                    # A TaskToken only ever names the reply_to queue of an
+                    # ASL Engine instance, never any other queue.
+                    if not reply_to.startswith("asl_workflow_reply_to"):
                         raise Exception(f"Malformed TaskToken {task_token}")
                 except Exception as e:
                     self.logger.error(
